@@ -331,6 +331,12 @@ def run(ctx):
     terms = [c_case(c, r) for c, r in zip(cases, results)]
     ctx.log('evaluating the model on the same graphs inside Coq')
     bad, errors = core.coq_eval_cases(ctx, HEADER, CASE_TYPE, terms, 'C07.mismatches', chunk=200)
+    if any('inconsistent assumptions' in str(e.get('error')) for e in errors):
+        # another check rebuilt the shared .vo files (Gen/Params.v is regenerated per VERIF_REPO) while the
+        # case files were being compiled: rebuild under the lock and evaluate once more
+        ctx.log('compiled libraries changed under the case files (concurrent build): rebuilding and re-evaluating')
+        build_ok, obl, regen = core.std_setup(ctx)
+    bad, errors = core.coq_eval_cases(ctx, HEADER, CASE_TYPE, terms, 'C07.mismatches', chunk=200, label='cases_retry')
     known = {k['signature'] for k in core.load_known() if k.get('property') == 'C07'}
     mismatches = []
     for i in bad[:20]:
